@@ -459,7 +459,7 @@ def run_tpd(c):
 # ------------------------------------------------------------------------------------------- degenerate quadrics and class instances vs lines
 @st.composite
 def deg_case(draw, tier="quick"):
-    what = draw(st.sampled_from(["line_pair", "plane_pair", "cone", "cylinder", "circle", "sphere"]))
+    what = draw(st.sampled_from(["line_pair", "plane_pair", "cone", "cylinder", "circle", "sphere", "degenerate_collection"]))
     return {"what": what, "v": [draw(C.ints(5)) for _ in range(12)], "A": draw(C.hpoint(3, 5)), "B": draw(C.hpoint(3, 5)), "r": draw(st.sampled_from([1, 2, 3, 0.5, 0.25, 0.1, 0.0625])),
             "k": draw(st.integers(0, len(UNIT) - 1)), "k2": draw(st.integers(0, len(UNIT) - 1)), "t": draw(st.sampled_from([1, 2, -1, 3])),
             "far": draw(st.sampled_from([1, 1, 4, 8]))}
@@ -496,6 +496,52 @@ def run_deg(c):
             ck.check(all(C.peq_all(g, pts[0], 1, 1e-6) for g in got), f"intersect:{what}:through-the-common-point", [g.tolist() for g in got])
         else:
             ck.check(len(got) == 2 and C.multiset_peq(got, pts, 1e-6), f"intersect:{what}:component-points", ([g.tolist() for g in got], [p.tolist() for p in pts]))
+        return ck.result()
+    if what == "degenerate_collection":
+        # a collection whose elements are all degenerate but of different kinds (plane pairs, a cone, a cylinder) and one line:
+        # position k holds the common points of quadric k and the line (the reducible and the irreducible elements take different
+        # routes inside the library)
+        e, f_ = np.array(v[:4], float), np.array(v[4:8], float)
+        if np.linalg.matrix_rank(np.stack([e, f_])) < 2:
+            raise Skip("equal components")
+        ctr = np.array(v[8:11], float)
+        ax = np.array([1.0, 2.0, 2.0]) if v[11] % 2 else np.array([0.0, 0.0, 1.0])
+        rr = float(c["r"]) if c["r"] >= 0.5 else 1.0
+        order = [[0, 1, 2], [1, 0, 2], [2, 1, 0], [1, 2, 0, 0]][abs(v[11]) % 4]
+        A, B = np.array(c["A"], float), np.array(c["B"], float)
+        if A[-1] == 0 or B[-1] == 0 or np.linalg.matrix_rank(np.stack([A, B])) < 2:
+            raise Skip("line at infinity or undefined")
+        built = []
+        for name, fn in (("plane_pair", lambda: Quadric.from_planes(Plane(e), Plane(f_))), ("cone", lambda: Cone(Point(*ctr), Point(*(ctr + ax)), rr)), ("cylinder", lambda: Cylinder(Point(*ctr), Point(*ax), rr))):
+            q, f = call(name, fn)
+            if f:
+                raise Skip("constructor fails (subject of C13 / C15)")
+            built.append(q)
+        L = Line(Point(A), Point(B))
+        singles = []
+        for q in built:
+            r1, f = call("intersect:single", q.intersect, L)
+            if f:
+                raise Skip("single intersection fails (checked by the other configurations)")
+            singles.append([np.asarray(x.array) for x in r1])
+        Qc = QuadricCollection(np.stack([built[i].array for i in order]))
+        res, f = call("intersect:degenerate-collection", Qc.intersect, L)
+        if f:
+            return [f]
+        dirn = A[:3] / A[3] - B[:3] / B[3]
+        for pos, i in enumerate(order):
+            got = [np.asarray(x.array)[pos] for x in res]
+            want = singles[i]
+            M = built[i].array
+            for g in got:
+                if np.max(np.abs(g)) < 1e-9:
+                    continue  # no point (zero vector) at this position
+                gn = g / np.max(np.abs(g))
+                on_line = np.linalg.matrix_rank(np.stack([A / np.max(np.abs(A)), B / np.max(np.abs(B)), gn]), tol=1e-6) < 3
+                ck.check(on_line, "intersect:degenerate-collection:point-on-the-line", (pos, gn.tolist()))
+                ck.check(abs(gn @ M @ gn) < 1e-5 * max(1.0, np.max(np.abs(M))), "intersect:degenerate-collection:point-on-quadric", (pos, ["plane_pair", "cone", "cylinder"][i], complex(gn @ M @ gn)))
+            if len(want) == len(got) == 2 and all(np.max(np.abs(w)) > 1e-9 for w in want):
+                ck.check(C.multiset_peq(got, want, 1e-4), "intersect:degenerate-collection:same-as-single", (pos, ["plane_pair", "cone", "cylinder"][i], [g.tolist() for g in got], [w.tolist() for w in want]))
         return ck.result()
     ctr = np.array(v[:3], float)
     r = c["r"]
@@ -567,7 +613,7 @@ def run_deg(c):
     res, f = call(f"intersect:{what}:secant", Q.intersect, L)
     if f:
         return [f]
-    ck.check(len(res) == 2 and C.multiset_peq([x.array for x in res], [np.append(p1, 1), np.append(p2, 1)], 1e-3), f"intersect:{what}:secant-through-known-points", ([x.array.tolist() for x in res], p1.tolist(), p2.tolist()))
+    ck.check(len(res) == 2 and C.multiset_peq([x.array for x in res], [np.append(p1, 1), np.append(p2, 1)], 1e-6), f"intersect:{what}:secant-through-known-points", ([x.array.tolist() for x in res], p1.tolist(), p2.tolist()))
     return ck.result()
 
 
